@@ -31,6 +31,9 @@ struct Args {
     help: String,
     consts: Vec<(String, String)>,
     vars: Vec<String>,
+    /// how the options reach the constructor: 0 builder with whole maps, 1 builder one label at a time,
+    /// 2 public struct fields, 3 the `new(name, help)` shorthand where the arguments allow it
+    via: u64,
 }
 
 const CTORS: &[&str] = &[
@@ -61,14 +64,43 @@ fn construct(a: &Args) -> Result<Option<Box<dyn Collector>>, String> {
     for (k, v) in &a.consts {
         cl.insert(k.clone(), v.clone());
     }
-    let opts = Opts::new(a.name.clone(), a.help.clone()).namespace(a.namespace.clone()).subsystem(a.subsystem.clone()).const_labels(cl.clone());
-    let hopts = HistogramOpts::new(a.name.clone(), a.help.clone()).namespace(a.namespace.clone()).subsystem(a.subsystem.clone()).const_labels(cl.clone());
+    let (opts, hopts) = match a.via {
+        1 => {
+            let mut o = Opts::new(a.name.clone(), a.help.clone()).subsystem(a.subsystem.clone()).namespace(a.namespace.clone());
+            let mut h = HistogramOpts::new(a.name.clone(), a.help.clone()).subsystem(a.subsystem.clone()).namespace(a.namespace.clone());
+            for (k, v) in &cl {
+                o = o.const_label(k.clone(), v.clone());
+                h = h.const_label(k.clone(), v.clone());
+            }
+            (o, h)
+        }
+        2 => {
+            let mut o = Opts::new("placeholder", "placeholder");
+            o.namespace = a.namespace.clone();
+            o.subsystem = a.subsystem.clone();
+            o.name = a.name.clone();
+            o.help = a.help.clone();
+            o.const_labels = cl.clone();
+            let h = HistogramOpts { common_opts: o.clone(), buckets: Vec::from(prometheus::DEFAULT_BUCKETS as &'static [f64]) };
+            (o, h)
+        }
+        _ => (
+            Opts::new(a.name.clone(), a.help.clone()).namespace(a.namespace.clone()).subsystem(a.subsystem.clone()).const_labels(cl.clone()),
+            HistogramOpts::new(a.name.clone(), a.help.clone()).namespace(a.namespace.clone()).subsystem(a.subsystem.clone()).const_labels(cl.clone()),
+        ),
+    };
+    // the shorthand constructors take a bare name and help
+    let bare = a.via == 3 && a.namespace.is_empty() && a.subsystem.is_empty() && cl.is_empty();
     let vars: Vec<&str> = a.vars.iter().map(|s| s.as_str()).collect();
     let vals: Vec<&str> = a.vars.iter().map(|_| "v").collect();
     fn b<C: Collector + 'static>(c: C) -> Option<Box<dyn Collector>> {
         Some(Box::new(c))
     }
     let r: prometheus::Result<Option<Box<dyn Collector>>> = match a.ctor {
+        0 if bare => Counter::new(a.name.clone(), a.help.clone()).map(b),
+        1 if bare => IntCounter::new(a.name.clone(), a.help.clone()).map(b),
+        2 if bare => Gauge::new(a.name.clone(), a.help.clone()).map(b),
+        3 if bare => IntGauge::new(a.name.clone(), a.help.clone()).map(b),
         0 => Counter::with_opts(opts).map(b),
         1 => IntCounter::with_opts(opts).map(b),
         2 => Gauge::with_opts(opts).map(b),
@@ -117,6 +149,7 @@ pub fn run_case(cx: &mut Ctx) {
             help: if rng.chance(1, 10) { String::new() } else { rng.pick(&["h", " ", "é", "help text"]).to_string() },
             consts: (0..nconst).map(|_| (ident(&mut rng, 8, VALID_LABEL_NAMES), rng.pick(&["", "1", "x"]).to_string())).collect(),
             vars: (0..nvar).map(|_| ident(&mut rng, 8, VALID_LABEL_NAMES)).collect(),
+            via: rng.below(4),
         };
         let mut a = a;
         // one constructor call in fifteen carries many labels (more than eight in total), sometimes with a
